@@ -719,10 +719,27 @@ func (so *SimpleOptimizer) transform(node parser.Node) (parser.Expr, bool) {
 				so.scope.define(spec.Ident.Name)
 			}
 		case token.Var, token.Const:
+			// In a const group a value-less constant repeats the previous
+			// expression, which is compiled again with the meaning the names
+			// have at that point; such an expression must not be replaced.
+			shared := false
+			if decl.Tok == token.Const {
+				for _, sp := range decl.Specs {
+					spec := sp.(*parser.ValueSpec)
+					for i := range spec.Idents {
+						if i >= len(spec.Values) || spec.Values[i] == nil {
+							shared = true
+						}
+					}
+				}
+			}
 			for _, sp := range decl.Specs {
 				spec := sp.(*parser.ValueSpec)
 				for i := range spec.Idents {
 					so.scope.define(spec.Idents[i].Name)
+					if shared {
+						continue
+					}
 					if i < len(spec.Values) && spec.Values[i] != nil {
 						v := spec.Values[i]
 						if expr, ok = so.transform(v); ok {
